@@ -62,7 +62,7 @@ fn coeffs<B: Fld, E: FieldElement<BaseField = B>>(e: E) -> Vec<u128> {
 }
 
 // ------------------------------------------------------------------------------------------------ WideToy
-// 32-byte digest of four words: word_i = post_MODE(toy_hash(input ++ [i])).  Gallina twin: wide_* in coq/Model/Coin.v.
+// 32-byte digest of four words: word_i = post_MODE(toy_hash([i] ++ le8(toy_hash(input)))).  Gallina twin: wide_* in coq/Model/Coin.v.
 #[derive(Debug, Default, Copy, Clone, Eq, PartialEq)]
 pub struct WDigest(pub [u64; 4]);
 impl WDigest {
@@ -93,17 +93,17 @@ impl Deserializable for WDigest {
 fn wide_post(mode: u8, w: u64) -> u64 {
     match mode {
         0 => w,
-        1 => if w & 3 == 0 { w } else { w | 0xFFFF_FFFF_0000_0000 },
-        2 => if w & 1 == 1 { u64::MAX } else { w },
+        1 => if w & 3 == 3 { w | 0xFFFF_FFFF_0000_0000 } else { w },
+        2 => if w & 7 == 7 { u64::MAX } else { w },
         _ => if w & 1023 == 0 { w } else { u64::MAX },
     }
 }
 fn wide_hash(mode: u8, bytes: &[u8]) -> WDigest {
-    let mut buf = bytes.to_vec();
-    buf.push(0);
+    let mut buf = [0u8; 9];
+    buf[1..].copy_from_slice(&toy_hash(bytes).to_le_bytes());
     let mut w = [0u64; 4];
     for i in 0..4 {
-        *buf.last_mut().unwrap() = i as u8;
+        buf[0] = i as u8;
         w[i] = wide_post(mode, toy_hash(&buf));
     }
     WDigest(w)
@@ -233,17 +233,18 @@ fn gen_seed(r: &mut Rng, m: u128, len: usize) -> Vec<u128> {
 fn gen_nonce(r: &mut Rng) -> u64 {
     match r.below(8) { 0 => 0, 1 => 1, 2 => u64::MAX, 3 => u64::MAX - 1, 4 => r.below(1 << 16), _ => r.next_u64() }
 }
-fn gen_ints(r: &mut Rng) -> Op {
+fn gen_ints(r: &mut Rng, wide: bool) -> Op {
     let k = 1 + r.below(32);
     let dom: u64 = 1 << k;
-    let cap = (dom - 1).min(255);
+    // the extracted model costs ~3 ms per PRNG call on the 32-byte toy hashers: keep most counts small there
+    let cap = (dom - 1).min(if wide && !r.chance(1, 8) { 24 } else { 255 });
     let (n, dom) = match r.below(20) {
         0..=10 => (1 + r.below(cap), dom),                     // admissible: 1..min(255, dom-1)
         11 => (cap, dom),
         12 | 13 => (dom.min(255) + r.below(3), 1 << (1 + r.below(8))), // count >= domain size (documented panic) or just below
         14 => (1 + r.below(255), dom ^ (1 << r.below(k)) | 1 << r.below(33)), // mostly not a power of two
         15 => (r.below(3), [0u64, 1, 2, 3][r.below(4) as usize]),     // degenerate domains / zero count
-        16 => (999 + r.below(4), 1 << (10 + r.below(23))),           // around the 1000-iteration limit
+        16 => if r.chance(1, 4) && !wide { (999 + r.below(4), 1 << (10 + r.below(23))) } else { (1 + r.below(cap), dom) }, // around the 1000-iteration limit
         17 => (1 + r.below(255), 1 << (33 + r.below(31))),            // domains above 2^32
         18 => (r.next_u64(), r.next_u64()),
         _ => (1 + r.below(cap), dom),
@@ -254,7 +255,7 @@ fn gen_op(r: &mut Rng, words: usize, heavy: bool) -> Op {
     match r.below(20) {
         0..=5 => Op::Draw(1 + r.below(3) as u8),
         6..=9 => Op::Reseed((0..words).map(|_| match r.below(6) { 0 => 0, 1 => u64::MAX, _ => r.next_u64() }).collect()),
-        10..=13 => if heavy { Op::Lz(gen_nonce(r)) } else { gen_ints(r) },
+        10..=13 => if heavy { Op::Lz(gen_nonce(r)) } else { gen_ints(r, words == 4) },
         14..=17 => Op::Lz(gen_nonce(r)),
         _ => Op::Grind(r.below(7) as u32, 1 + r.below(48)),
     }
@@ -277,16 +278,17 @@ fn boundary_cases() -> Vec<(String, String, Vec<u128>, Vec<Op>)> {
         let cap = (dom - 1).min(255);
         for (j, nonce) in [0u64, 1, u64::MAX].iter().enumerate() {
             let h = ["toy", "w0", "w1"][j];
+            let cap = if j > 0 && k % 8 != 0 { cap.min(9) } else { cap };
             push(h, vec![Op::Ints(1, dom, *nonce), Op::Draw(1), Op::Ints(cap, dom, *nonce), Op::Lz(*nonce), Op::Draw(1)], 1 + j, &mut v);
         }
         if dom <= 256 {
             push("toy", vec![Op::Ints(dom, dom, 7), Op::Draw(1), Op::Ints(dom - 1, dom, 7), Op::Draw(1)], 3, &mut v);
-            push("w0", vec![Op::Ints(255, dom, 7), Op::Ints(dom + 1, dom, 7), Op::Draw(2)], 3, &mut v);
+            push("w0", vec![Op::Ints(255, dom, 7), Op::Ints(dom + 1, dom, 7), Op::Ints(dom / 2, dom, 7), Op::Draw(2)], 3, &mut v);
         }
     }
     // every count 1..255 (domain 256 and 2^32), alternating hashers
     for n in 1..=255u64 {
-        let h = ["toy", "w0", "w2"][(n % 3) as usize];
+        let h = if n % 16 == 5 { "w0" } else if n % 16 == 11 { "w2" } else { "toy" };
         push(h, vec![Op::Ints(n, if n % 2 == 0 { 256 } else { 1 << 32 }, n), Op::Draw(1)], (n % 5) as usize, &mut v);
     }
     // seeds of length 0, 1, many
@@ -297,21 +299,29 @@ fn boundary_cases() -> Vec<(String, String, Vec<u128>, Vec<Op>)> {
             }
         }
     }
-    // error / panic domain of draw_integers, zero count, iteration limit
+    // error / panic domain of draw_integers, zero count, iteration limit (cases that run the full 1000 iterations
+    // are costly in the extracted model: toy hasher only, plus two on w0)
     for (n, dom) in [(0u64, 1u64), (0, 2), (0, 0), (1, 0), (1, 1), (1, 3), (2, 6), (5, (1 << 32) + 1), (1, 1 << 63), (1, u64::MAX),
                      (u64::MAX, 1 << 63), (1 << 63, 1 << 63), (1000, 2048), (1001, 2048), (999, 1024), (1023, 1024), (1024, 1024),
                      (2000, 1 << 20), (255, 256), (256, 256)] {
+        let full = n == 0 && dom > 0 || n >= 999 && n < dom;
         for h in ["toy", "w0"] {
+            if h == "w0" && full && n != 1001 && n != 0 { continue; }
+            if h == "w0" && n == 0 && dom != 2 { continue; }
             push(h, vec![Op::Draw(1), Op::Ints(n, dom, 3), Op::Draw(1), Op::Lz(3)], 2, &mut v);
         }
     }
-    // draws of every element type, repeated, on every hasher variant (w3: mostly Err after 1000 tries)
-    for h in ["toy", "w0", "w1", "w2", "w3"] {
+    // draws of every element type, repeated, on every hasher variant
+    for h in ["toy", "w0", "w1", "w2"] {
         for d in 1..=3u8 {
             for _ in 0..3 {
                 push(h, vec![Op::Draw(d), Op::Draw(d), Op::Lz(1), Op::Draw(1), Op::Reseed(vec![5, 6, 7, 8]), Op::Draw(d), Op::Draw(1)], 4, &mut v);
             }
         }
+    }
+    // w3: draw mostly fails after 1000 tries (Err), state keeps the advanced counter
+    for d in 1..=3u8 {
+        push("w3", vec![Op::Draw(d), Op::Lz(1), Op::Draw(1), Op::Reseed(vec![5, 6, 7, 8]), Op::Draw(1)], 4, &mut v);
     }
     // nonce search
     for gf in 0..=8u32 {
@@ -325,7 +335,7 @@ fn corr(seed: u64, n: usize) {
     let mut r = Rng::new(seed ^ 0xC19);
     let mut cases = boundary_cases();
     let nb = cases.len();
-    let mut heavy_left = (n / 40).max(6);
+    let mut heavy_left = (n / 100).max(2);
     while cases.len() < nb + n {
         let f = ["f64", "f62", "f128"][r.below(3) as usize];
         let mut h = ["toy", "toy", "toy", "toy", "w0", "w0", "w1", "w1", "w2", "w3"][r.below(10) as usize];
